@@ -11,23 +11,32 @@ import common as c
 
 PID = "C20"
 MANIFEST = {
-    "text": "18 Coq theorems, 16 over ALL doubles, all library-oracle behaviours meeting stated hypotheses: the display "
+    "text": "27 Coq theorems, 16 over ALL doubles, all library-oracle behaviours meeting stated hypotheses: the display "
             "text matches the numeral grammar (sign, integer digits grouped in threes, fraction | mantissa e exponent | "
             "NaN/Infinity/-Infinity) for every valid double (shape hypotheses on {:.N}/{:.14e}/parse + coarse bounds on "
             "log10/powi; Flocq no-overflow proof); grouping/trimming/separator insertion change no value; integers in "
             "the standard range (< 2^53) are shown exactly with no oracle; no overflow panic; 15-significant-digit "
             "accuracy proved for every valid finite non-zero double (C20_accuracy) under explicit correctness "
             "specifications of the library calls (integers: error 0; scientific range: <= 1/2 unit; standard "
-            "non-integers, repaired code: <= 5/8 unit, Flocq real analysis) - it is PARTIAL in that the executable library models are tested (ORACLE streams), "
-            "not proved, against those specifications (C20_accuracy_full stays a Prop); model tied to the code by the "
+            "non-integers, repaired code: <= 5/8 unit, Flocq real analysis); the executable library models the DISPLAY "
+            "correspondence runs (fmt_prec_exec, fmt_exp14_exec, parse_f64_exec, powi_exec) are PROVED to satisfy those "
+            "specifications (C20_fmt_prec_model_shape/_value/_accurate: {:.N} = round-half-even of the exact binary "
+            "expansion at N digits, every N; C20_e10_model_exact + C20_fmt_exp14_model_correct: {:.14e} = 15 correctly "
+            "rounded significant digits incl. carry, for valid doubles; C20_parse_model_nearest/_close: parse = IEEE "
+            "nearest-even of N/10^k; C20_powi_model_*), so the former Prop C20_accuracy_full is the theorem "
+            "C20_accuracy_exec (only hypothesis: log10_sane on libm's log10, shown satisfiable) and "
+            "C20_accuracy_exact_library has no hypothesis (exact floor-log10 model); what stays trusted is that Rust's "
+            "std/libm behave like these models (ORACLE streams); model tied to the code by the "
             "DISPLAY correspondence (vm_compute vs Rust on bit patterns and boundaries); implementation-level "
             "exact-rational search of the property itself (found C20-F1, fixed in /repo 60da55e)",
     "note": "trusted: Coq kernel + vm_compute; hand transcription of format_display_number and helpers (validated by "
             "DISPLAY); library oracles log10/powi/{:.N}/{:.14e}/parse::<f64> are Section variables in the theorems "
             "(shape / correctness hypotheses stated in each theorem) and exact Z implementations when running "
-            "(validated by ORACLE streams; log10 by lookup of the real function's values); axioms: none for 13 "
+            "(validated by ORACLE streams; log10 by lookup of the real function's values); axioms: none for 15 "
             "theorems, the Flocq/Reals axioms of the allow-list for C20_wellformed_total, "
-            "C20_accuracy_partial_standard, C20_accuracy, C20_powi_model_*",
+            "C20_accuracy_partial_standard, C20_accuracy, C20_powi_model_*, C20_fmt_prec_model_accurate, "
+            "C20_e10_model_exact, C20_fmt_exp14_model_correct, C20_parse_model_*, C20_accuracy_exec, "
+            "C20_accuracy_exact_library",
     "design_ref": "DESIGN.md section 6 C20; notes/C20.md",
 }
 
@@ -520,9 +529,13 @@ def main(argv):
                              "failures_outside": len(fails)}
     res.assumptions = [
         "library oracles (f64::log10, powi, {:.N}, {:.14e}, parse::<f64>) are Section variables in the theorems; "
-        "their executable Gallina models are validated by the ORACLE streams only",
-        "15-significant-digit accuracy is proved only relative to correctness specifications of the library calls "
-        "(stated as hypotheses in C20_accuracy_partial_*); on the implementation it is decided by exact-rational search",
+        "their executable Gallina models are proved to meet the stated specifications (C20_*_model_*) and are "
+        "compared with the Rust std functions by the ORACLE streams - that Rust's std/libm behave like the models is "
+        "tested, not proved",
+        "15-significant-digit accuracy is proved for the executable model (C20_accuracy_exec: only hypothesis "
+        "log10_sane on libm's log10; C20_accuracy_exact_library: none) and, for arbitrary oracles, relative to "
+        "correctness specifications of the library calls (C20_accuracy); on the implementation it is decided by "
+        "exact-rational search",
     ]
     return res.finish()
 
